@@ -1,12 +1,19 @@
 #!/bin/sh
-# usage: seedtest.sh <seed-id> <prop> [<prop>...]   -- apply /verif/seeded/<id>/patch.diff to /repo, run the checks, undo.
+# usage: seedtest.sh <seed-id> <prop> [<prop>...]
+#   apply /verif/seeded/<id>/patch.diff to /repo, run the checks, undo (git checkout -- .), keep the check output
+#   in /verif/seeded/<id>/check_<prop>.log and the replay files in /verif/seeded/<id>/replays/.
 id=$1; shift
 cd /repo || exit 2
 if [ -n "$(git status --porcelain --untracked-files=no)" ]; then echo "/repo is dirty; refusing"; exit 2; fi
 git apply /verif/seeded/$id/patch.diff || { echo "patch does not apply"; exit 2; }
 trap 'cd /repo && git checkout -- . ' EXIT
 for p in "$@"; do
-  cd /verif && ./check $p ${SEED_ARGS} > /tmp/seed_${id}_$p.log 2>&1; rc=$?
-  echo "seed=$id prop=$p rc=$rc :: $(grep -E 'VIOLATION|KNOWN-FINDING' /tmp/seed_${id}_$p.log | head -3 | cut -c1-260)"
-  tail -1 /tmp/seed_${id}_$p.log
+  log=/verif/seeded/$id/check_$p.log
+  start=$(date +%s)
+  cd /verif && ./check $p ${SEED_ARGS} > $log 2>&1; rc=$?
+  end=$(date +%s)
+  echo "seed=$id prop=$p rc=$rc wall=$((end-start))s" >> $log
+  mkdir -p /verif/seeded/$id/replays
+  for r in $(grep -o 'replay=[^ ]*' $log | cut -d= -f2); do cp "$r" /verif/seeded/$id/replays/ 2>/dev/null; done
+  echo "seed=$id prop=$p rc=$rc wall=$((end-start))s :: $(grep -cE '^VIOLATION' $log) violation line(s); first: $(grep -E '^VIOLATION' $log | head -1 | cut -c1-220)"
 done
